@@ -277,7 +277,8 @@ def bounds(tier):
     if tier == "quick":
         return {"n_max": 4, "requests_per_step_max": 1, "guards": "all 2^n", "orders": "all",
                 "interpreter_binding": "all DAGs n<=4 x all guard valuations; chains of <= 4 statements whose guards are "
-                "one expression over a variable that the chain flips"}
+                "one expression over a variable that the chain flips; size corner: chains of 1500 and 4000 statements, "
+                "a fan-in of 1500, a ladder of 1200"}
     return {"n_max_d0": 5, "n_max_d2": 4, "n5_guards": "all-true, all-false, each single false",
             "n5_order_cap_per_dag": 400, "n5_d1": "all-true guards, first 24 orders per DAG",
             "orders_n<=4": "all"}
@@ -408,6 +409,7 @@ def record(acc, sub, detail, w):
 def run_shard(desc, acc):
     if desc["mode"] == "interp":
         run_guard_family(acc)
+        run_long_chains(acc)
         return run_interp_binding(desc, acc)
     n, d = desc["n"], desc["d"]
     mod, rem = desc["mod"], desc["rem"]
@@ -539,6 +541,57 @@ def run_interp_binding(desc, acc):
                 acc.traces += 1
 
 
+def run_long_chains(acc, only=None):
+    """size corner: dependency chains and fans far above the enumerated sizes, through the real interpreter"""
+    from dagrt.exec_numpy import NumpyInterpreter
+    from dagrt.language import Assign, DAGCode, ExecutionPhase
+
+    class Rec(NumpyInterpreter):
+        def exec_Assign(self, stmt):
+            self.rec.append(stmt.id)
+            return super().exec_Assign(stmt)
+    for shape, n in (("chain", 1500), ("chain", 4000), ("fan-in", 1500), ("ladder", 1200)):
+        if only is not None and only != [shape, n]:
+            continue
+        def deps(i):
+            if shape == "chain":
+                return ["s%d" % (i - 1)] if i else []
+            if shape == "fan-in":
+                return ["s%d" % j for j in range(n - 1)] if i == n - 1 else []
+            return ["s%d" % j for j in (i - 1, i - 2) if j >= 0]
+        stmts = [Assign(id="s%d" % i, assignee="<p>x", assignee_subscript=(), expression=i, depends_on=deps(i))
+                 for i in range(n)]
+        # stored in reverse, so that nothing can rely on the list order
+        dag = DAGCode({"ph": ExecutionPhase("ph", "ph", list(reversed(stmts)))}, "ph")
+        it = Rec(dag, {})
+        it.set_up(t_start=0, dt_start=1, context={})
+        acc.evaluations += 1
+        problem = None
+        for step in range(2):
+            it.rec = []
+            try:
+                with kernel.time_limit(300):
+                    list(it.run_single_step())
+            except BaseException as e:
+                problem = "run_single_step raised %s: %s" % (type(e).__name__, str(e)[:150])
+                break
+            pos = {sid: k for k, sid in enumerate(it.rec)}
+            if sorted(it.rec) != sorted("s%d" % i for i in range(n)):
+                problem = "%d statements executed, %d distinct, expected each of %d once" % (
+                    len(it.rec), len(set(it.rec)), n)
+                break
+            bad = [(i, d) for i in range(n) for d in deps(i) if pos[d] > pos["s%d" % i]]
+            if bad:
+                problem = "s%d executed before its dependency %s" % bad[0]
+                break
+            acc.transitions += n
+        if problem:
+            acc.violation("large-phase(interpreter)", "C04/large-phase(interpreter):%s of %d statements" % (shape, n),
+                          {"via": "interpreter", "large": [shape, n]},
+                          "well-formed phase: a %s of %d statements: %s" % (shape, n, problem))
+        acc.traces += 1
+
+
 def run_guard_family(acc, only=None):
     """Guards that are expressions over a variable the step itself changes: chains of <= 4 statements, each either F
     (unguarded: <p>g <- -<p>g) or E (guarded by the SAME expression <p>g > 0: <p>e_k <- 1).  A guard is evaluated when
@@ -607,6 +660,10 @@ def run_guard_family(acc, only=None):
 
 def replay(witness):
     w = witness
+    if "large" in w:
+        acc = kernel.Acc()
+        run_long_chains(acc, only=w["large"])
+        return acc.violations
     if "guard_family" in w:
         acc = kernel.Acc()
         run_guard_family(acc, only=w["guard_family"])
